@@ -75,6 +75,22 @@ def run(ctx: Ctx) -> None:
                     ctx.ob("R17.9", f"types:{cname}.{m_.name}|text field {f_}", bad is None,
                            msg=f"`{short(bad, 50) if bad is not None else ''}`: the recorded spelling is transformed before it is written, so the text parses back to a different {cname} (e.g. 'long unsigned int' rendered as 'unsigned long int')", node=bad or m_, mod=types, nontrivial=False)
 
+    # ---------------------------------------------------------------- R17.11
+    # A node is rendered in full wherever it occurs: format() takes nothing, format_decl() the declarator.  A further
+    # argument is a mode switch, and a parent that passes one (`arg.format(names=False)`) renders its child with something
+    # left out that the object holds - which then cannot come back when the text is parsed.
+    ctx.rule("R17.11", "children are formatted in full: format() is called without arguments, format_decl() with the declarator only", minimum=10)
+    for cname, cnode in types.classes():
+        for m_ in cnode.body:
+            if not isinstance(m_, ast.FunctionDef):
+                continue
+            for x in ast.walk(m_):
+                if isinstance(x, ast.Call) and isinstance(x.func, ast.Attribute) and x.func.attr in ("format", "format_decl") and not isinstance(x.func.value, ast.Constant):
+                    nargs = len(x.args) + len(x.keywords)
+                    ok = nargs == (0 if x.func.attr == "format" else 1)
+                    ctx.ob("R17.11", f"types:{cname}.{m_.name}|`{short(x, 50)}`", ok,
+                           msg=f"`{short(x, 60)}` formats a child in a reduced mode (an extra argument switches part of its rendering off): what the child holds and the text does not show is lost when the text is parsed back", node=x, mod=types, nontrivial=False)
+
     # ---------------------------------------------------------------- R17.10
     check_text_not_edited(ctx, "R17.10", types)
 
